@@ -2545,6 +2545,9 @@ def parse_config(bindings, skip_unknown=False):
             if not skip_unknown:
               raise
             _print_unknown_import_message(statement, e)
+        # Recorded right away, like the bindings made so far, in case a later
+        # statement fails.
+        _IMPORTS.update(parse_context.imports)
       elif isinstance(statement, config_parser.IncludeStatement):
         with utils.try_with_location(statement.location):
           nested_includes = parse_config_file(statement.filename, skip_unknown)
